@@ -7,6 +7,7 @@
   changed formula does.
 -/
 import OpwVerif.Lemmas.SrcTieReal
+import OpwVerif.Lemmas.SrcCtlTie
 namespace Opw.Tie
 open Opw
 
@@ -27,5 +28,37 @@ theorem source_closed_form_eq_reference_chain (p : Params ℝ) (q : J6 ℝ) :
   ext
   · exact forwardTheta_rot p q
   · exact forwardTheta_tr p q
+
+/-! ### Branching helpers (`Generated/SrcCtl.lean`, translated statement by statement by `tools/rs2lean_ctl.py`).
+Generic in the number type: they hold of the `Float` reading as well as of ℝ.  `while` loops are compared
+with the model's fuel-bounded loops for EVERY fuel. -/
+section
+variable {R : Type} [OpwNum R]
+
+theorem isCloseToMultipleOfPi_is_source (v thr : R) :
+    SrcCtl.isCloseToMultipleOfPiSrc v thr = isCloseToMultipleOfPi v thr := isCloseToMultipleOfPiSrc_eq v thr
+
+theorem areAnglesClose_loop_is_source (n : Nat) (d : R) : SrcCtl.areAnglesCloseSrcLoop n d = foldDiff n d :=
+  areAnglesCloseSrcLoop_eq n d
+
+theorem areAnglesClose_is_source (a b : R) : SrcCtl.areAnglesCloseSrc a b = areAnglesClose a b :=
+  areAnglesCloseSrc_eq a b
+
+theorem normalizeNear_is_source (now prev : R) : SrcCtl.normalizeNearSrc now prev = normalizeNear now prev :=
+  normalizeNearSrc_eq now prev
+
+theorem comparePoses_is_source (ta tb : Iso R) (dT aT : R) :
+    SrcCtl.comparePosesSrc (ta.t.sub tb.t).norm (Quat.angleTo ta.q tb.q) dT aT = comparePoses ta tb dT aT :=
+  comparePosesSrc_eq ta tb dT aT
+
+theorem insideBounds_is_source (angle centre tol : R) :
+    SrcCtl.insideBoundsSrc angle centre tol = insideBounds angle centre tol := insideBoundsSrc_eq angle centre tol
+
+theorem computeCenters_loop_is_source (n : Nat) (a b : R) : SrcCtl.centerTolSrcLoop a n b = unwrapTo n a b :=
+  centerTolSrcLoop_eq n a b
+
+theorem computeCenters_is_source (a b : R) : SrcCtl.centerTolSrc a b = centerTol a b := centerTolSrc_eq a b
+
+end
 
 end Opw.Tie
